@@ -21,6 +21,7 @@ EXPLANATION = (
     "to the derived per-pair source only. C03.4: barrier -- every pool push of a pass is followed by an un-timed "
     "pool.wait() before the pass ends. C03.5: the containers that fix handler start order are order-preserving by "
     "declared type and no set is iterated on the dispatch path."
+    " C03.7 (shared with C12.3): the multiplexer hands out every due event; a source is polled whenever its slot is empty."
 )
 TRUSTED = ["CPython ast parser", "sa.cfg statement CFG", "mypy types/callees", "asyncio: only await suspends"]
 
